@@ -114,6 +114,8 @@ def opOf : Sexp → Option Op
   | .list [.atom "equals", r, s] => do let r' ← idxOfSexp r; let s' ← idxOfSexp s; pure (.obs r' (some s'))
   | .list [.atom "mput", r, k, v] => do let r' ← idxOfSexp r; let k' ← elemOf k; let v' ← elemOf v; pure (.mput r' k' v')
   | .list [.atom "slice", r, i, j] => do let r' ← idxOfSexp r; let i' ← i.int?; let j' ← j.int?; pure (.slice r' i' j')
+  | .list [.atom "chunk", r, n, k] => do let r' ← idxOfSexp r; let n' ← n.int?; let k' ← k.int?; pure (.chunk r' n' k')
+  | .list [.atom "asarray", r] => (idxOfSexp r).map .asArray
   | .list [.atom "at", r, i] => do let r' ← idxOfSexp r; let i' ← i.int?; pure (.at r' i')
   | .list [.atom "map", r, f] => do let r' ← idxOfSexp r; let f' ← fnOf f; pure (.map r' f')
   | .list [.atom "mapvalues", r, f] => do let r' ← idxOfSexp r; let f' ← fnOf f; pure (.mapValues r' f')
